@@ -132,16 +132,16 @@ class Runner:
         self.world.advance(5)
         self.outfile = os.path.join(self.outd, f"x{c['version']}.{c['fmt']}")
 
-    def args(self, mode):
+    def args(self, mode, write_log=None):
         a = ["-a", self.asm, "-p", self.prt, "-o", self.outfile]
-        a.append("--write-log" if self.case["write_log"] else "--no-write-log")
+        a.append("--write-log" if (self.case["write_log"] if write_log is None else write_log) else "--no-write-log")
         if mode == "noclobber":
             a.append("--no-clobber")
         elif mode != "default":
             a.append(mode)
         return a
 
-    def run_cli(self, mode, fault=None, prelude=None, keep=None):
+    def run_cli(self, mode, fault=None, prelude=None, keep=None, write_log=None):
         """One invocation = one simulated process = one forked child: nothing
         the tool keeps in module globals or in the logging tree reaches the
         next invocation.  With `prelude`, the same process first performs an
@@ -160,7 +160,7 @@ class Runner:
                             os.unlink(os.path.join(self.outd, fn))
                 w.advance(8)
                 mark = len(w.trace)
-            r = clirun.invoke(self.cli, self.args(mode))
+            r = clirun.invoke(self.cli, self.args(mode, write_log))
             clirun.end_of_process()
             if r.exc is not None:
                 r.exc = repr(r.exc)
@@ -307,15 +307,19 @@ class Runner:
             f"noclobber first={self.site_kind(first) if first else '-'} |S|={'1' if k == 1 else ('all' if k == len(C) else 'some')} "
             f"kind={kinds[first] if first else '-'} fmt={self.case['fmt']} log={int(self.case['write_log'])}")
 
-    def check_after_run(self, S, C):
+    def check_after_run(self, S, C, flip_log=False):
         """The pre-existing files are those an earlier invocation IN THE SAME
         PROCESS has just written (S of them are still there): --no-clobber
-        must refuse and leave them as they are."""
+        must refuse and leave them as they are.  With flip_log the second
+        invocation has the other --write-log setting than the first."""
         self.wipe_out()
         kinds = {fn: "same" for fn in S}
-        res, trace = self.run_cli("noclobber", prelude="default", keep=set(S))
+        res, trace = self.run_cli("noclobber", prelude="default", keep=set(S),
+                                  write_log=(not self.case["write_log"]) if flip_log else None)
         relS = {os.path.join("out", fn) for fn in S}
-        mode = "noclobber_after_run"
+        mode = "noclobber_after_run_flip_log" if flip_log else "noclobber_after_run"
+        if flip_log and not [fn for fn in S if not fn.endswith(".log")]:
+            return  # (nothing the second invocation could collide with)
         if res is None:
             return
         if res.code == 0:
@@ -470,8 +474,8 @@ class Runner:
                     return "discard"
                 if mode == "noclobber":
                     self.check_noclobber(S, kinds, C)
-                elif mode == "noclobber_after_run":
-                    self.check_after_run(S, C)
+                elif mode in ("noclobber_after_run", "noclobber_after_run_flip_log"):
+                    self.check_after_run(S, C, flip_log=mode.endswith("flip_log"))
                 elif mode.startswith("noclobber+"):
                     kind, at, frac = mode[len("noclobber+"):].split("@")
                     self.replay_fault(S, kinds, C, kind, int(at), float(frac))
@@ -480,6 +484,7 @@ class Runner:
                 return "ok"
             rng = random.Random(self.case["subset_seed"])
             self.check_after_run(list(W), C)
+            self.check_after_run(list(W), C, flip_log=True)
             if len(W) > 1:
                 self.check_after_run(sorted(rng.sample(W, rng.randint(1, len(W) - 1))), C)
             for S in self.subsets(W, rng):
